@@ -98,6 +98,12 @@ def from_json(j, tmpfiles=None):
             fh = io.BytesIO(data)
         fh.seek(max(0, j.get("pos", 0)))
         return fh
+    if "record" in j:
+        mod = importlib.import_module(j["module"])
+        cls = getattr(mod, j["record"])
+        return cls(**{k: from_json(v, tmpfiles) for k, v in j["fields"].items()})
+    if "opaque" in j:
+        return None
     if "py" in j:
         return eval(j["py"], {"io": io})
     raise ValueError(f"cannot convert {j!r}")
